@@ -302,3 +302,24 @@ Print Assumptions C19_data_reads_only.
 Print Assumptions C19_data_frame.
 Print Assumptions C19_read_ok.
 Print Assumptions C19_frame_meaning.
+
+(* ---- the header-section loop of the model IS reader.parse_header_items_section as it stands today ----
+   Model/SectionParse.parse_section (parse_body: blank and comment lines skipped, the "~" line that ends the
+   section, read_line in try / except / else, the ignore_header_errors branch - skip with a warning or
+   LASHeaderError -, the mnemonic_case mapping, the parser built from the title, append) equals, for every file,
+   pair of line numbers satisfying section_extent (what find_sections produces), version other than 3.0, case,
+   flag and comment characters, the function re-translated on this run from /repo
+   (py_parse_header_items_section in Gen/Funcs.v).  None = LASHeaderError.  Proofs/FuncsPinParseSection.v. *)
+From Coq Require Import ZArith.
+Require Import Funcs HeaderLine FuncsPinStandardize FuncsPinNum FuncsPinParseSection.
+Theorem C19_parse_section_current : forall fstr fzero file first last title v c ign cc,
+  startswith [ch_tilde] (strip (pyo_readline_line (skipn first file))) = true -> v <> V30 ->
+  section_extent file first last cc ->
+  py_parse_header_items_section (hval_ops fstr fzero) num_hval_ops hsect_ops (skipn first file)
+    (Z.of_nat first, Z.of_nat last) v ign (case_str c) (List.map (fun ch : N => [ch]) cc)
+  = match parse_section v (pyo_readline_line (skipn first file)) c ign cc (body_lines file (mkspos first last title)) with
+    | POk items => Some (case_transforms c, items)
+    | PErr _ => None
+    end.
+Proof. exact parse_section_pin. Qed.
+Print Assumptions C19_parse_section_current.
